@@ -948,26 +948,33 @@ def rat_shape(tree):
     return rec(tree), leaves
 
 
-def leaf_relations(E, leaves):
-    """Strongest order relation the path condition implies between each pair of leaves: ((i, j, rel), ...)."""
+def _relation(E, a, b):
+    if not E.feasible(a != b):
+        return "eq"
+    if not E.feasible(a >= b):
+        return "lt"
+    if not E.feasible(a > b):
+        return "le"
+    if not E.feasible(a <= b):
+        return "gt"
+    if not E.feasible(a < b):
+        return "ge"
+    return None
+
+
+def leaf_relations(E, leaves, consts=()):
+    """Strongest order relation the path condition implies between each pair of leaves, and between each leaf and
+    each integer constant of the expression: ((i, j | ('c', value), rel), ...)."""
     rels = []
     for i in range(len(leaves)):
         for j in range(i + 1, len(leaves)):
-            a, b = leaves[i], leaves[j]
-            if not E.feasible(a != b):
-                r = "eq"
-            elif not E.feasible(a >= b):
-                r = "lt"
-            elif not E.feasible(a > b):
-                r = "le"
-            elif not E.feasible(a <= b):
-                r = "gt"
-            elif not E.feasible(a < b):
-                r = "ge"
-            else:
-                r = None
+            r = _relation(E, leaves[i], leaves[j])
             if r:
                 rels.append((i, j, r))
+        for c in consts:
+            r = _relation(E, leaves[i], c)
+            if r:
+                rels.append((i, ("c", c), r))
     return tuple(rels)
 
 
@@ -977,7 +984,17 @@ def record_fp_shape(E, goal, value):
         return
     shape, leaves = rat_shape(value.tree)
     pos = tuple(j for j, l in enumerate(leaves) if not E.feasible(l <= 0))
-    FP_SHAPES.append((goal, shape, leaf_relations(E, leaves), pos))
+    consts = set()
+
+    def scan(t):
+        if t[0] == "c":
+            if isinstance(t[1], int) and t[1] > 100:
+                consts.add(t[1])
+        elif t[0] != "i":
+            for x in t[1:]:
+                scan(x)
+    scan(shape)
+    FP_SHAPES.append((goal, shape, leaf_relations(E, leaves, sorted(consts)), pos))
 
 
 # ---- builtins replacements ---------------------------------------------------
